@@ -3,12 +3,15 @@
 use crate::run::{Ctx, Failure, Stats};
 use serde_json::Value;
 
+pub mod c01;
+pub mod c02;
 pub mod c03;
 pub mod c04;
 pub mod c05;
 pub mod c06;
 pub mod c07;
 pub mod c09;
+pub mod c10;
 pub mod c11;
 pub mod c12;
 pub mod c18;
@@ -23,12 +26,15 @@ pub struct PropDef {
 
 pub fn all() -> Vec<PropDef> {
     vec![
+        PropDef { id: "C01", level: "exploration", run: c01::run, replay: c01::replay },
+        PropDef { id: "C02", level: "exploration", run: c02::run, replay: c02::replay },
         PropDef { id: "C03", level: "exploration", run: c03::run, replay: c03::replay },
         PropDef { id: "C04", level: "exploration", run: c04::run, replay: c04::replay },
         PropDef { id: "C05", level: "exploration", run: c05::run, replay: c05::replay },
         PropDef { id: "C06", level: "exploration", run: c06::run, replay: c06::replay },
         PropDef { id: "C07", level: "exploration", run: c07::run, replay: c07::replay },
         PropDef { id: "C09", level: "exploration", run: c09::run, replay: c09::replay },
+        PropDef { id: "C10", level: "exploration", run: c10::run, replay: c10::replay },
         PropDef { id: "C11", level: "exploration", run: c11::run, replay: c11::replay },
         PropDef { id: "C12", level: "exploration", run: c12::run, replay: c12::replay },
         PropDef { id: "C18", level: "exploration", run: c18::run, replay: c18::replay },
